@@ -214,8 +214,30 @@ def write_replay(prop, payload) -> str:
     return rel
 
 
+COMMON_SOURCES = ("demeter/_typing.py", "demeter/utils/", "demeter/broker/", "demeter/__init__.py")
+
+
+def changed_sources(prop):
+    """files anchoring this property (properties.jsonl) or shared by all markets whose AST differs from source_fingerprints.json"""
+    try:
+        sys.path.insert(0, os.path.join(VERIF, "tools"))
+        import fingerprint
+        ch = fingerprint.changed(REPO)
+        anchors = []
+        for l in open(os.path.join(VERIF, "properties.jsonl")):
+            pr = json.loads(l)
+            if pr["id"] == prop:
+                anchors = pr["anchors"].get("files", [])
+        return [f for f in ch if f in anchors or f.startswith(COMMON_SOURCES)]
+    except Exception:  # noqa: BLE001
+        return []
+
+
+BOOST = []
+
+
 def run_harness(mod, prop, tier, seed, driver_ok, search):
-    ctx = Ctx(prop, tier, seed, driver_ok, search)
+    ctx = Ctx(prop, tier, seed, driver_ok, search, boost=bool(BOOST))
     mod.run(ctx)
     return ctx
 
@@ -251,6 +273,9 @@ def main():
         print(f"replay {args.replay}: property {'HOLDS' if verdict else 'FAILS'} on this case")
         return 0 if verdict else 1
 
+    BOOST[:] = changed_sources(prop)
+    if BOOST:
+        print(f"check: {len(BOOST)} anchored source file(s) differ from the recorded fingerprint ({', '.join(BOOST[:4])}): enlarged search budget")
     try:
         broken, info, driver_ok = build_and_audit(prop, mod, args.tier)
     except subprocess.TimeoutExpired as e:
@@ -334,6 +359,7 @@ def main():
         "exact_vs_impl_max_rel_dev": common.fmt(ctx.max_dev) if ctx.max_dev else "0",
         "notes": jsonable(ctx.notes),
         "gen_consts": info.get("gen_consts"),
+        "source_changed_since_fingerprint": list(BOOST),
     }
     for k in ("pending_thorough_only", "leanchecker"):
         if k in info:
